@@ -23,7 +23,7 @@ import hashlib as _hl
 def byte_pool() -> Dict[str, bytes]:
     """C17 concretisation pool: boundary lengths, NUL-rich, high bytes, marker-like values."""
     vals = [b"", b"\x00", b"a\x00\x00", b"\x00\x00\x00\x00", b"x", b"\x7f\x7f", b"\x7f\x00", b"\x00\x7f", b"\x1a",
-            b"\xff\xfe\xfd", bytes(range(256)), b"A" * 63, b"B" * 64, b"C" * 65, b"D" * 1023, b"E" * 1024, b"F" * 1025,
+            b"\xff\xfe\xfd", bytes(range(256)), b"A" * 63, b"B" * 64, b"G" * 64, b"C" * 65, b"D" * 1023, b"E" * 1024, b"F" * 1025,
             b"text with newline\n", "äöü ✓".encode(), b"\x89HDF\r\n\x1a\n", b"ih5_v01\n1024\n{}\x00"]
     return {f"b{k}": v for k, v in enumerate(vals)}
 
@@ -152,11 +152,15 @@ def apply(drv: CL.Driver, a: Dict[str, Any], km, tk, inst):
         h5lib.apply_op(mc, a, km, tk.pool)
     elif op == "pack":
         from metador_core.packer.utils import pack_file
-        import tempfile
-        with tempfile.TemporaryDirectory(dir=str(drv.d)) as td:
-            f = Path(td) / "some file.bin"
-            f.write_bytes(MARKER if a["tok"] == "MARK" else BYTES[a["tok"]])
-            pack_file(mc, f, target=km.path(a["p"]).lstrip("/"))
+        import os
+        # the same source path is embedded again and again with other contents (often of the same length) and
+        # with the same modification time, as after cp -p / rsync -t / untar
+        src = drv.d / "packsrc"
+        src.mkdir(exist_ok=True)
+        f = src / "some file.bin"
+        f.write_bytes(MARKER if a["tok"] == "MARK" else BYTES[a["tok"]])
+        os.utime(f, (1_700_000_000, 1_700_000_000))
+        pack_file(mc, f, target=km.path(a["p"]).lstrip("/"))
     elif op == "attach":
         node = mc[km.path(a["p"])]
         key = a["schema"] if a["by"] == "name" else CL.CLASSES[a["cls"]]
@@ -289,7 +293,7 @@ def gen(rng: random.Random, h5rec: Dict[str, Any], stage: int, job: Dict[str, An
     r = 0.0 + (r / pa) * 0.30 if r < pa else (0.30 + (r - pa) / pd_ * 0.08 if r < pa + pd_ else
         (0.38 + (r - pa - pd_) / prs * 0.07 if r < pa + pd_ + prs else 0.45 + (r - pa - pd_ - prs) / max(1e-9, 1 - pa - pd_ - prs) * 0.55))
     a: Dict[str, Any] = {"op": "", "p": [], "q": [], "key": "", "v": "", "without_meta": False, "schema": "",
-                         "sver": [], "valid": True, "by": "", "cls": "", "as": "", "method": "", "rpath": "", "via": 0, "tok": ""}
+                         "sver": [], "valid": True, "by": "", "cls": "", "as": "", "method": "", "rpath": "", "via": 0, "tok": "", "ro": False}
     nodes = [n["p"] for n in tree]
     if job.get("p_pack") and rng.random() < job["p_pack"]:
         e = h5lib.gen_op(rng, tree, depth=3, weights={"set_dataset": 1, "create_group": 0, "delete": 0, "set_attr": 0,
@@ -392,7 +396,7 @@ def run_history(job: Dict[str, Any], emit, scratch: Path, tk: h5lib.Tokens, env:
                     broken = (d, type(ex).__name__ + ": " + str(ex)[:200])
             if broken is not None:
                 base_a = {"op": "reopen", "p": [], "q": [], "key": "", "v": "", "without_meta": False, "schema": "",
-                          "sver": [], "valid": True, "by": "", "cls": "", "as": "", "method": "", "rpath": "", "via": 0}
+                          "sver": [], "valid": True, "by": "", "cls": "", "as": "", "method": "", "rpath": "", "via": 0, "ro": False}
                 out = []
                 for d in drvs:
                     if d is broken[0]:
@@ -409,6 +413,12 @@ def run_history(job: Dict[str, Any], emit, scratch: Path, tk: h5lib.Tokens, env:
             if prev is None:
                 prev = observe(drvs[0], km, tk, rng, snap, originals, 0)
             a = gen(rng, prev, env.stage, job)
+            if a["op"] != "pack" and rng.random() < job.get("p_ro", 0.07):
+                # this operation meets containers over drivers opened read-only: it must be refused without effect
+                # (only looking up an existing group with require_group succeeds); afterwards writable again
+                a["ro"] = True
+                for d in drvs:
+                    d.reopen("r")
             inst = CL.instances(a["cls"], rng) if a["op"] == "attach" else None
             emit({"t": "begin", "tid": tid, "i": step, "e": a})
             recs = []
@@ -451,9 +461,12 @@ def run_history(job: Dict[str, Any], emit, scratch: Path, tk: h5lib.Tokens, env:
                 out.append(o)
             prev = out[0]
             emit({"t": "end", "tid": tid, "ev": {"op": a["op"], "a": a, "env": snap, "d": out}})
+            if a.get("ro"):
+                for d in drvs:
+                    d.reopen("r+")
         if job.get("p_pack"):
             base_a = {"op": "", "p": [], "q": [], "key": "", "v": "", "without_meta": False, "schema": "", "sver": [],
-                      "valid": True, "by": "", "cls": "", "as": "", "method": "", "rpath": "", "via": 0, "tok": ""}
+                      "valid": True, "by": "", "cls": "", "as": "", "method": "", "rpath": "", "via": 0, "tok": "", "ro": False}
             # the deletion-marker value: must be refused loudly on IH5 (and leave no trace), is ordinary data on HDF5
             a = {**base_a, "op": "pack", "p": ["zzmarker"], "tok": "MARK"}
             out = []
@@ -503,7 +516,7 @@ def run_history(job: Dict[str, Any], emit, scratch: Path, tk: h5lib.Tokens, env:
             for nm in passthrough_names(drvs[0].raw):
                 todo.append({"op": "passthrough", "method": nm, "on": "file", "p": []})
             base_a = {"op": "", "p": [], "q": [], "key": "", "v": "", "without_meta": False, "schema": "", "sver": [],
-                      "valid": True, "by": "", "cls": "", "as": "", "method": "", "rpath": "", "via": 0}
+                      "valid": True, "by": "", "cls": "", "as": "", "method": "", "rpath": "", "via": 0, "ro": False}
             for a0 in todo:
                 a = {**base_a, **a0}
                 emit({"t": "begin", "tid": tid, "i": step, "e": a})
